@@ -705,7 +705,9 @@ func (x *rlWorld) step(c *ctx, cls map[string]any, r *rand.Rand) ev {
 			req.Signature = signT3(secret, blind, req)
 			enc = remarshal(req)
 		case "ResealedHonest": // control: the harness's own sealing and signing of a well-formed inner request is accepted
-			inner := type3.VerifNewInnerTokenRequest(w.issuer.TokenKeyID()[0], randBytes(r, 256), type3.VerifPadOriginName(origin)).Marshal()
+			msg := randBytes(r, 256)
+			msg[0] = 0 // a blinded message is an integer below the modulus; a random 256-byte string is not always one
+			inner := type3.VerifNewInnerTokenRequest(w.issuer.TokenKeyID()[0], msg, type3.VerifPadOriginName(origin)).Marshal()
 			req.EncryptedTokenRequest = sealT3(w.issuer.NameKey(), req.RequestKey, inner, true)
 			req.Signature = signT3(secret, blind, req)
 			enc = remarshal(req)
